@@ -149,7 +149,8 @@ def gen_program(tape, phase, special):
                 kind = tape.weighted([(12, 'store'), (2, 'store_input'), (1, 'store_final'), (3, 'log'),
                                       (2, 'annotate'), (3, 'metadata'), (2, 'localfile'),
                                       (5, 'retrieve'), (3, 'retrieve_name'), (1, 'db_store_model'),
-                                      (1, 'retrieve_log'), (2, 'dummy_run'), (2, 'nmfiles')], 'op')
+                                      (1, 'retrieve_log'), (2, 'dummy_run'), (2, 'nmfiles'),
+                                      (1, 'db_store_entry')], 'op')
                 m = chosen[tape.draw(len(chosen), 'op.model')]
                 if kind == 'nmfiles':
                     ok = [x for x in chosen if x in base.NM_OK]
